@@ -767,6 +767,7 @@ func (x *g) genHTTP(sv *spec.Service, m *spec.Method, idx int) {
 			x.s.AddFeature("skip-request-body")
 		}
 	}
+	x.genMultipart(sv, m, hasBody, verb) // multipart.go (Opts.Multipart): driven at run time with the lab's codec
 	// (a streaming endpoint with two routes crashes the OpenAPI 3 generator: findings/C01-stream-multi-route-openapi3;
 	// kept for C01, not emitted for the runtime checks which need the generated code)
 	if !strings.Contains(path, "{*") && (m.Stream == "" && (x.chance(1, 6) || (x.o.Profile == "openapi" && x.chance(1, 2))) || m.Stream != "" && !x.o.Runtime && x.chance(1, 10)) {
